@@ -40,7 +40,7 @@ else:
     rcx = 0
 cov = ev.get('coverage', {})
 cov['bounded'] = None if b is None else {"what":"real ParsePath vs independent recogniser of the documented grammar (whole input, structure)","bound_tokens":b['bound'],"alphabet":b['tokens'],
-    "strings":b['strings'],"sentences":b['sentences'],"agree":b['agree'],"differences_by_class":b['differences_by_class'],"exhaustive_within_bound":True,"label":"bounded - never counted as proved"}
+    "strings":b['strings'],"sentences":b['sentences'],"agree":b['agree'],"differences_by_class":b['differences_by_class'],"exhaustive_within_bound":True,"size_ladder":"beyond the token bound, sampled: sequences and alternatives of 1..512 steps, nesting 1..256 deep, names of 8..4096 characters","label":"bounded - never counted as proved"}
 cov['explanation'] = "proof part: %s of %s SMT obligations on build/ParsePath discharged; bounded part (labelled bounded): the generated PEG interpreter (peg.go) is outside the verifiable subset and is compared with the grammar on every token string up to the bound" % (cov.get('discharged'), cov.get('obligations'))
 cov['samples'] = (cov.get('samples') or []) + ([] if b is None else [{"bounded_examples": b['examples']}])
 ev['coverage'] = cov
